@@ -1,4 +1,4 @@
-import DoltVerif.Lemmas.ProllyMergeTW
+import DoltVerif.Lemmas.ProllyMergeApply
 import DoltVerif.Props.C13
 /-!
 C14 — Three-way tree merges follow key-wise merge semantics.
@@ -118,6 +118,75 @@ theorem match_verdicts (resolve : ResolveCb) (l r : Event) :
           · simp [ht]
         simp only [hc, Bool.false_eq_true, if_false]
         cases resolve (some v) (some w) l.from? <;> simp
+
+theorem find_of_mem {cmp : Bytes → Bytes → Ordering} (ol : OrdLaws cmp) (k : Bytes) : ∀ (ds : List TWDiff),
+    ds.Pairwise (fun d1 d2 => cmp d1.key d2.key = .lt) → ∀ d ∈ ds, cmp k d.key = .eq →
+    ds.find? (fun d' => cmp k d'.key == .eq) = some d
+  | [], _, d, h, _ => by simp at h
+  | d0 :: ds, ha, d, h, hk => by
+    have ha' := List.pairwise_cons.mp ha
+    simp at h
+    rcases h with rfl | h
+    · simp [List.find?_cons, hk]
+    · have hlt := ha'.1 d h
+      have : cmp k d0.key ≠ .eq := by
+        intro h0
+        have := ol.eq_lt _ _ _ h0 hlt
+        rw [hk] at this; simp at this
+      have hb : (cmp k d0.key == .eq) = false := by simpa using this
+      simp only [List.find?_cons, hb]
+      exact find_of_mem ol k ds ha'.2 d h hk
+
+/-- **tw_merge_lookup** (the key-level merge path, "applying the three-way differ's edits to left"):
+for all well-formed triples with strictly ascending contents, after folding the three-way differ's
+results over left's content, a key maps to the `effect` of the (unique) result for that key —
+right's value for a right-only add/modify, nothing for a right-only delete, the merged value for a
+resolved divergent modify, and left's own mapping in every other case — and a key without a result
+maps to what it mapped to in left. -/
+theorem tw_merge_lookup {store} {cmp : Bytes → Bytes → Ordering} (ol : OrdLaws cmp) (resolve : ResolveCb)
+    (base left right : Tree) (hb : base.WF store) (hl : left.WF store) (hr : right.WF store)
+    (sb : Sorted cmp base.flatten) (sl : Sorted cmp left.flatten) (sr : Sorted cmp right.flatten)
+    (ds : List TWDiff) (h : threeWayDiffer cmp resolve false false base left right = some ds) (k : Bytes) :
+    (∀ d ∈ ds, cmp k d.key = .eq →
+      lookupKV cmp k (ds.foldl (applyTW cmp) left.flatten) = effect d (lookupKV cmp k left.flatten)) ∧
+    ((∀ d ∈ ds, cmp k d.key ≠ .eq) →
+      lookupKV cmp k (ds.foldl (applyTW cmp) left.flatten) = lookupKV cmp k left.flatten) := by
+  have asc := (differ3_classifies ol resolve false false base left right hb hl hr sb sl sr ds h).2
+  have fl := foldl_applyTW_lookup ol k ds left.flatten sl asc
+  constructor
+  · intro d hd hk
+    rw [fl, find_of_mem ol k ds asc d hd hk]
+  · intro hno
+    have : ds.find? (fun d' => cmp k d'.key == .eq) = none := by
+      rw [List.find?_eq_none]
+      intro d hd
+      simpa using hno d hd
+    rw [fl, this]
+
+/-- **conflict_keeps_left**: a key whose three-way verdict is a conflict (delete conflict or clash
+conflict — the resolver said "not ok") keeps exactly left's mapping in the merged content; so do
+left-only and convergent changes. -/
+theorem conflict_keeps_left {store} {cmp : Bytes → Bytes → Ordering} (ol : OrdLaws cmp) (resolve : ResolveCb)
+    (base left right : Tree) (hb : base.WF store) (hl : left.WF store) (hr : right.WF store)
+    (sb : Sorted cmp base.flatten) (sl : Sorted cmp left.flatten) (sr : Sorted cmp right.flatten)
+    (ds : List TWDiff) (h : threeWayDiffer cmp resolve false false base left right = some ds)
+    (d : TWDiff) (hd : d ∈ ds) (k : Bytes) (hk : cmp k d.key = .eq)
+    (hop : d.op = .divergentDeleteConflict ∨ d.op = .divergentModifyConflict ∨ d.op = .divergentDeleteResolved ∨
+      d.op = .leftAdd ∨ d.op = .leftModify ∨ d.op = .leftDelete ∨
+      d.op = .convergentAdd ∨ d.op = .convergentModify ∨ d.op = .convergentDelete) :
+    lookupKV cmp k (ds.foldl (applyTW cmp) left.flatten) = lookupKV cmp k left.flatten := by
+  rw [(tw_merge_lookup ol resolve base left right hb hl hr sb sl sr ds h k).1 d hd hk]
+  unfold effect
+  rcases hop with h | h | h | h | h | h | h | h | h <;> simp [h]
+
+/-- the verdict is a conflict exactly when the resolver refuses (both sides changed the key to
+different results): then no merged value is produced -/
+theorem conflict_iff_resolver_refuses (resolve : ResolveCb) (l r : Event) (hl : l.to? ≠ none) (hr : r.to? ≠ none)
+    (hne : ¬ (l.type = r.type ∧ l.to? = r.to?)) :
+    (matchEdit resolve l r).op = .divergentModifyConflict ↔ resolve l.to? r.to? l.from? = none := by
+  have := (match_verdicts resolve l r).2.2.2 ⟨hl, hr, hne⟩
+  rw [this.1]
+  cases resolve l.to? r.to? l.from? <;> simp
 
 /-! ### statements that are compared by the harness, not proved -/
 
